@@ -4,6 +4,7 @@ CONSTANTS
   WriteLines <- WL
   MaxReads = 2
   MaxWrites = 2
+  MaxConnects = 2
   WithFaults = TRUE
 VIEW View
 INVARIANT PeerGetsExactBytes
